@@ -90,7 +90,8 @@ theorem source_disc_integral (F : Nat) (x y mp : List Rat) (a b : Rat) (h : Disc
     disc_integral F x y mp a b = Disc.integral (mkDisc3 x y mp) a b := disc_integral_refines F x y mp a b h
 
 /-- `DiscreteFunc.get_plottable_data(averaging_window_size=k)` — the two nested smoothing loops with their
-    `break` / `continue` — returns the times unchanged and the model's smoothed values, for every `k ≥ 0` -/
+    `break` / `continue` — returns the times unchanged and the model's smoothed values, for every `k ≥ 0`
+    (float64 arrays: with an integer-typed `y`, `np.zeros_like(self.y)` would truncate the stored values) -/
 theorem source_disc_plottable (F : Nat) (x y mp : List Rat) (k : Nat)
     (h : x.length = y.length ∧ x.length = mp.length ∧ 1 ≤ x.length) (h0 : 0 ≤ mp.headD 0)
     (hF : x.length + 2 ≤ F) :
@@ -105,8 +106,8 @@ namespace PySpike.C15
 theorem source_isi_lengths_is_model (F : Nat) (s : List Rat) (ts te : Rat) :
     GenIsiLen.isi_lengths F s ts te = some (isiLengths s ts te) := isi_lengths_refines F s ts te
 
-/-- … hence, outside the class of known finding F7, the routine of the source returns the inter-spike
-    intervals with the edge rule of the profiles -/
+/-- … hence, for spikes inside `[ts, te]` and outside the class of known finding F7, the routine of the
+    source returns the inter-spike intervals with the edge rule of the profiles -/
 theorem source_isi_lengths_is_isi_list_partial (F : Nat) (s : List Q) (ts te : Q)
     (hb : ∀ x ∈ s, ts ≤ x ∧ x ≤ te) (hF : ¬ F7class s ts te) :
     GenIsiLen.isi_lengths F s ts te = some (isiListSpec s ts te) := by
